@@ -580,8 +580,7 @@ class Flattener(object):
             if r is not None:
                 callee, receiver = r
                 if callee.key not in stack and len(stack) < MAX_DEPTH and self.is_generator(callee) and \
-                        self.eligible_generator(callee, stmt.iter) and all(_pure(a) for a in stmt.iter.args) and \
-                        all(_pure(k.value) for k in stmt.iter.keywords):
+                        self.eligible_generator(callee, stmt.iter):
                     try:
                         consumer = self._loop_body_without_jumps(stmt.body)
                         pre, exprs, renames, k = self.bind(callee, stmt.iter, receiver)
@@ -1067,6 +1066,108 @@ class Flattener(object):
         self.desugared += 1
         return [ast.copy_location(init, at), ast.copy_location(loop, at)]
 
+    def _dict_literal(self, e):
+        """the dict display a table expression denotes: a local name bound once to it, or self.X / cls.X bound once in the class"""
+        if isinstance(e, ast.Dict):
+            return e
+        if isinstance(e, ast.Name):
+            d = self._single_def(e.id)
+            return d.value if d is not None and isinstance(d.value, ast.Dict) else None
+        if isinstance(e, ast.Attribute) and isinstance(e.value, ast.Name) and e.value.id in ('self', 'cls'):
+            lit = self._class_literal(e.attr)
+            return lit if isinstance(lit, ast.Dict) else None
+        return None
+
+    def _desugar_dispatch(self, stmts, fn):
+        """h = TABLE.get(key);  if h is not None: ...h(args)... else: REST
+             ==>   if key == k1: ...f1(args)...  elif key == k2: ...f2(args)...  else: REST
+        for a TABLE that is a dict display with distinct constant keys whose values are methods / functions (a value
+        stored as a plain class-level function and called `h(self, x)` is the method call `self.f(x)`)."""
+        out = []
+        i = 0
+        stmts = list(stmts)
+        while i < len(stmts):
+            s = stmts[i]
+            for field in ('body', 'orelse', 'finalbody'):
+                blk = getattr(s, field, None)
+                if isinstance(blk, list) and blk and isinstance(blk[0], ast.stmt) and not isinstance(s, (ast.FunctionDef, ast.ClassDef)):
+                    setattr(s, field, self._desugar_dispatch(blk, fn))
+            if isinstance(s, ast.Try):
+                for h_ in s.handlers:
+                    h_.body = self._desugar_dispatch(h_.body, fn)
+            done = False
+            if isinstance(s, ast.Assign) and len(s.targets) == 1 and isinstance(s.targets[0], ast.Name) and isinstance(s.value, ast.Call) and \
+                    isinstance(s.value.func, ast.Attribute) and s.value.func.attr == 'get' and 1 <= len(s.value.args) <= 2 and not s.value.keywords \
+                    and i + 1 < len(stmts) and isinstance(stmts[i + 1], ast.If):
+                h = s.targets[0].id
+                key = s.value.args[0]
+                default_none = len(s.value.args) == 1 or (isinstance(s.value.args[1], ast.Constant) and s.value.args[1].value is None)
+                table = self._dict_literal(s.value.func.value)
+                nxt = stmts[i + 1]
+                t = nxt.test
+                neg = False
+                if isinstance(t, ast.UnaryOp) and isinstance(t.op, ast.Not):
+                    t, neg = t.operand, True
+                found_branch = None
+                if isinstance(t, ast.Name) and t.id == h:
+                    found_branch = 'orelse' if neg else 'body'
+                elif isinstance(t, ast.Compare) and len(t.ops) == 1 and isinstance(t.left, ast.Name) and t.left.id == h and \
+                        isinstance(t.comparators[0], ast.Constant) and t.comparators[0].value is None:
+                    is_none = isinstance(t.ops[0], (ast.Is, ast.Eq)) != neg
+                    found_branch = 'orelse' if is_none else 'body'
+                uses = [n for n in ast.walk(fn) if isinstance(n, ast.Name) and n.id == h and n is not s.targets[0]]
+                inside = [n for n in ast.walk(nxt) if isinstance(n, ast.Name) and n.id == h]
+                if table is not None and default_none and _pure(key) and found_branch is not None and len(uses) == len(inside) and table.keys and \
+                        all(isinstance(k, ast.Constant) and isinstance(k.value, (str, int)) for k in table.keys) and \
+                        len({k.value for k in table.keys}) == len(table.keys) and \
+                        all(isinstance(v, (ast.Name, ast.Attribute)) for v in table.values):
+                    hit = getattr(nxt, found_branch)
+                    miss = nxt.orelse if found_branch == 'body' else nxt.body
+                    # inside the hit branch h is only called
+                    calls = [c for b in hit for c in ast.walk(b) if isinstance(c, ast.Call) and isinstance(c.func, ast.Name) and c.func.id == h]
+                    hit_uses = [n for b in hit for n in ast.walk(b) if isinstance(n, ast.Name) and n.id == h]
+                    miss_uses = [n for b in miss for n in ast.walk(b) if isinstance(n, ast.Name) and n.id == h]
+                    ok = len(calls) == len(hit_uses) and not miss_uses and calls
+                    chain = None
+                    if ok:
+                        branches = []
+                        for k, v in zip(table.keys, table.values):
+                            body = [clone(b) for b in hit]
+                            good = True
+                            for b in body:
+                                for c in ast.walk(b):
+                                    if isinstance(c, ast.Call) and isinstance(c.func, ast.Name) and c.func.id == h:
+                                        if isinstance(v, ast.Attribute):
+                                            c.func = clone(v)
+                                        elif c.args and isinstance(c.args[0], ast.Name) and c.args[0].id == 'self' and self.fi.cls is not None and \
+                                                self.prog.resolve_method(self.fi.cls, v.id) is not None:
+                                            c.func = ast.copy_location(ast.Attribute(value=ast.Name(id='self', ctx=ast.Load()), attr=v.id, ctx=ast.Load()), c)
+                                            c.args = c.args[1:]
+                                        elif self.prog.functions.get((self.fi.module.rel, v.id)) is not None:
+                                            c.func = ast.copy_location(ast.Name(id=v.id, ctx=ast.Load()), c)
+                                        else:
+                                            good = False
+                            if not good:
+                                ok = False
+                                break
+                            test = ast.Compare(left=clone(key), ops=[ast.Eq()], comparators=[ast.Constant(value=k.value)])
+                            branches.append((test, body))
+                        if ok:
+                            tail = [clone(b) for b in miss]
+                            for test, body in reversed(branches):
+                                node = ast.If(test=test, body=body or [ast.Pass()], orelse=tail)
+                                ast.copy_location(node, nxt)
+                                ast.fix_missing_locations(node)
+                                tail = [node]
+                            out.extend(tail)
+                            self.desugared += 1
+                            i += 2
+                            done = True
+            if not done:
+                out.append(s)
+                i += 1
+        return out
+
     def _desugar_iterator_pulls(self, stmts, fn):
         """it = (e for t in SRC if c)   [or a private generator function]   consumed only by k successive `next(it, d_i)`:
               v1 = d1; ...; vk = dk; n = 0
@@ -1361,6 +1462,7 @@ class Flattener(object):
         self.desugared = 0
         self._dropped = set()
         node.body = self._desugar_iterator_pulls(node.body, node)
+        node.body = self._desugar_dispatch(node.body, node)
         node.body = self.desugar(node.body)
         if self._dropped:
             class Drop(ast.NodeTransformer):
@@ -1392,6 +1494,7 @@ class Flattener(object):
             if self.inlined:
                 node.body = _fold_constant_tests(node.body) or [ast.Pass()]
             node.body = self._desugar_iterator_pulls(node.body, node)
+            node.body = self._desugar_dispatch(node.body, node)
             node.body = self.desugar(node.body)
             node.body = self.rewrite_block(node.body, self.fi.cls, [self.fi.key])
             if ast.dump(node) == shape:
